@@ -57,6 +57,12 @@ func ZZ_C18_revoke_T() {
 	runRevoke(newEnv("revoke", tx, nil), false)
 }
 
+// ZZ_C18_codereplay_T: replay of a redeemed code under one or two faults.
+func ZZ_C18_codereplay_T() {
+	tx := storeChoice()
+	runCodeReplay(newEnv("codereplay", tx, nil), zz.Choice("pairs", 2) == 1)
+}
+
 // ZZ_C18_pkce_T: PKCE-protected redeem.
 func ZZ_C18_pkce_T() {
 	tx := storeChoice()
